@@ -76,7 +76,11 @@ def stmt_cpp(s):
     return '%s(obj, %s())%s;' % (HEADM[s['head']], KFN[s['k']], ''.join(clause_cpp(c, s['k']) for c in s['seq']))
 
 def compile_tu(args):
-    path, std, incs = args
+    path, std, incs = args[:3]
+    if len(args) > 3 and args[3] == 'clang':
+        p = subprocess.run(['clang++', '-std=' + std, '-fsyntax-only', '-ferror-limit=0', '-w'] + ['-I' + i for i in incs] + [path],
+                           stdout=subprocess.PIPE, stderr=subprocess.STDOUT, text=True)
+        return p.returncode, p.stdout
     p = subprocess.run(['g++', '-std=' + std, '-fsyntax-only', '-fmax-errors=0', '-ftemplate-backtrace-limit=0', '-w'] +
                        ['-I' + i for i in incs] + [path], stdout=subprocess.PIPE, stderr=subprocess.STDOUT, text=True)
     return p.returncode, p.stdout
@@ -99,7 +103,28 @@ def attribute(output, fname):
             pass
     return per
 
-def run_stmts(stmts, work, std, tag, per_tu=80):
+def attribute_clang(output, fname):
+    """clang prints the error first and the instantiation notes after it: the first note in our file gives the line"""
+    per, pending = {}, []
+    base = os.path.basename(fname)
+    for l in output.splitlines():
+        m = re.search(r': error: (?:static_assert failed(?: due to requirement \'[^\']*\')? )?"?(.*?)"?$', l)
+        if m and ': error:' in l:
+            here = re.match(r'(?:\S*/)?' + re.escape(base) + r':(\d+):\d+: error: (.*)', l)
+            if here:
+                per.setdefault(int(here.group(1)), []).append(here.group(2))
+            else:
+                pending.append(m.group(1))
+            continue
+        m2 = re.match(r'(?:\S*/)?' + re.escape(base) + r':(\d+):\d+: note: ', l)
+        if m2 and pending:
+            per.setdefault(int(m2.group(1)), []).extend(pending)
+            pending = []
+    if pending:
+        per.setdefault(0, []).extend(pending)
+    return per
+
+def run_stmts(stmts, work, std, tag, per_tu=80, compiler='gcc'):
     """returns list of (stmt, ok, detail)"""
     os.makedirs(work, exist_ok=True)
     prel = PRELUDE20 if std == 'c++20' else PRELUDE14
@@ -116,12 +141,12 @@ def run_stmts(stmts, work, std, tag, per_tu=80):
             index[len(lines)] = s
         open(path, 'w').write('\n'.join(lines) + '\n')
         tus.append((path, index))
-        jobs.append((path, std, [lib.INCLUDE, os.path.join(lib.HARNESS, 'coro')]))
+        jobs.append((path, std, [lib.INCLUDE, os.path.join(lib.HARNESS, 'coro')], compiler))
     with cf.ThreadPoolExecutor(lib.NCPU) as ex:
         res = list(ex.map(compile_tu, jobs))
     results = []
     for (path, index), (rc, out) in zip(tus, res):
-        per = attribute(out, path)
+        per = attribute_clang(out, path) if compiler == 'clang' else attribute(out, path)
         stray = per.get(0, [])
         for ln, s in index.items():
             got = per.get(ln, [])
@@ -258,6 +283,8 @@ def run_c19(prop, tier, seed, t0):
     results += run_stmts(plain, os.path.join(work, 's14'), 'c++14', 'ts14')
     if tier == 'thorough':
         results += run_stmts(plain, os.path.join(work, 's17'), 'c++17', 'ts17')
+        if shutil.which('clang++'):
+            results += run_stmts(plain, os.path.join(work, 'c14'), 'c++14', 'tc14', compiler='clang')   # a second compiler (clang 14)
     bad = [r for r in results if not r[1]]
     for (s, ok, detail, path, ln) in bad[:15]:
         name = '%s-%s-%s-%s' % (prop, s['k'], s['head'], '_'.join(s['seq']) or 'none')
